@@ -11,6 +11,13 @@ define back).
 Oracles (all independent of strax): a pure list evaluator of the chain (levels below the first superrun level per
 subrun, the others on the concatenation), the literal statement (== concatenation of the per-subrun get_array), and
 an interval predicate for the `subruns` bookkeeping: span of subrun r in chunk c == [c.start, c.end] /\\ [S_r, E_r].
+Sub-check `continuity` feeds hand-built concatenations of subrun chunk streams to strax.continuity_check (what
+get_iter and the savers run on every stream): accepted unchanged whatever the time between two subruns, rejected for
+a hole / overlap inside a subrun.
+
+Recorded findings (known_findings.json, property C14): F16 (Chunk.split keeps `subruns` of a chunk that is not
+aligned with its subrun spans), F15 (gap chunk labelled with the previous subrun), F1430 (sub_run_spec comes back in
+run-name order), F1431 (zero-duration superrun chunk loses its subruns).
 """
 import collections
 import datetime
@@ -46,8 +53,11 @@ RULE = (
     "write_superruns x allow_rechunk x processor (threaded runs under the controlled scheduler) x history "
     "(get | make+get | combining; subruns queried before or after; re-read in a fresh context; redefinition with "
     "another sub-list; define back), all drawn from Hypothesis.  Non-trivial = >= 2 subruns and some subrun in >= 2 "
-    "chunks and (a stored / yielded chunk spans a subrun border or the subruns' chunk layouts differ).  distinct = "
-    "distinct descriptor hashes."
+    "chunks and (a stored / yielded chunk spans a subrun border or the subruns' chunk layouts differ).  Sub-check "
+    "continuity: the same pools turned into chunk streams (superrun chunks of 1-3 consecutive pieces, inter-run time "
+    "absorbed or left as a hole; or the subruns' own chunks as with combining=True), optionally with one hole / "
+    "overlap of one grid step injected between two chunks of the same subrun; non-trivial = >= 2 subruns and more "
+    "chunks than subruns.  distinct = distinct descriptor hashes."
 )
 ASSUMPTIONS = [
     "run documents are truthful at the millisecond resolution of DataDirectory run metadata and strictly increasing "
@@ -325,7 +335,11 @@ def rows_of(arr, j):
 
 
 # ----------------------------------------------------------------------------------------------------
-# spy on Chunk.split: recognises the two recorded root causes at the place where they happen
+# spy on Chunk.split: recognises the recorded root causes (F15, F16, F1431) at the place where they happen, with an
+# independent partition of the spans; F1430 is recognised where the run document is read back (define).
+# A failure is attributed to a recorded finding only if the spy saw its root cause in this very case AND the failing
+# clause / subrun / exception text is the one that root cause produces; then the case counts as steered away
+# (Excluded) - the committed replays carry `nosteer` and are matched by the signatures below instead.
 # ----------------------------------------------------------------------------------------------------
 SPY = dict(f16=set(), f15=set(), f1430=None, f1431=False)
 
@@ -671,7 +685,7 @@ def _run(d, token, path):
             out[p] = arr
         return out
 
-    def check_rows(what, got_rows, want, literal=None, arrs=None):
+    def check_rows(what, got_rows, want):
         if got_rows != want:
             fail(d, what + ".rows_differ", f"got {got_rows[:10]}... ({len(got_rows)}) expected {want[:10]}... "
                                            f"({len(want)})")
@@ -937,7 +951,7 @@ def run_cont(d):
 
 
 SUBCHECKS = [
-    SubCheck("single", run_case, strategy=lambda: st_case(threaded=False), quick=260, thorough=9000, min_per_shard=8),
-    SubCheck("threaded", run_case, strategy=lambda: st_case(threaded=True), quick=100, thorough=3500, min_per_shard=5),
-    SubCheck("continuity", run_cont, strategy=st_cont, quick=1600, thorough=40000, min_per_shard=100),
+    SubCheck("single", run_case, strategy=lambda: st_case(threaded=False), quick=360, thorough=14000, min_per_shard=8),
+    SubCheck("threaded", run_case, strategy=lambda: st_case(threaded=True), quick=140, thorough=6000, min_per_shard=5),
+    SubCheck("continuity", run_cont, strategy=st_cont, quick=1600, thorough=60000, min_per_shard=100),
 ]
